@@ -52,7 +52,9 @@ def guard_text(guards):
 
 # ---- native harness ---------------------------------------------------------------------------------------------
 DSDL = {
-    "in/rep/Thing.1.0.dsdl": "uint8 a\ndepns.D.1.0 d\nrep.inner.Other.1.0 o\ndepns.Mid.1.0[<=2] mids\nrep.ext.Far.1.0 far\n@sealed\n",
+    "in/rep/Thing.1.0.dsdl": "uint8 a\ndepns.D.1.0 d\nrep.inner.Other.1.0 o\ndepns.Mid.1.0[<=2] mids\nrep.ext.Far.1.0 far\ndepns.D.2.0 d_newer\n@sealed\n",
+    # a second version of a lookup definition: two files, one name
+    "dep/depns/D.2.0.dsdl": "float16 f\nuint8 more\n@sealed\n",
     "in/rep/inner/Other.1.0.dsdl": "int13 x\n@sealed\n",
     "dep/depns/D.1.0.dsdl": "float16 f\n@sealed\n",
     # reached only through an array element type
@@ -288,6 +290,11 @@ def main():
                                 + (f"; {w['why']}" if w else ""), {"witness": w}, bool(w)))
     # the filter that avoids listing a file twice may only drop what was listed just before
     gens = [n for n in ast.walk(li.node) if isinstance(n, (ast.GeneratorExp, ast.ListComp)) and "lookup" in ast.unparse(n)]
+    if not gens:
+        w = native_inputs_complete("c")
+        run.add_check("_list_inputs_only#lookup-listing-drops-only-what-is-already-listed", False if w else None, "E-FX", 0, "the lookup dependencies are no longer listed through a filter over the dependency set")
+        if w:
+            run.fail(report.Failure("_list_inputs_only#lookup-listing-drops-only-what-is-already-listed", "relational", f"the lookup dependency listing was restructured; {w['why']}", {"witness": w}, True))
     for g in gens:
         conds = [ast.unparse(c) for comp in g.generators for c in comp.ifs]
         ok = all(c in ("d not in root_datatypes",) for c in conds)
